@@ -439,24 +439,24 @@ func rangeIndex(first, last, code []byte) (index int, ok bool) {
 }
 
 func (f *File) LookupCID(code []byte) CID {
-	for _, s := range f.CIDSingles {
-		if bytes.Equal(s.Code, code) {
-			return s.Value
+	for g := f; g != nil; g = g.Parent {
+		for _, s := range g.CIDSingles {
+			if bytes.Equal(s.Code, code) {
+				return s.Value
+			}
+		}
+
+		for _, r := range g.CIDRanges {
+			index, ok := rangeIndex(r.First, r.Last, code)
+			if !ok {
+				continue
+			}
+			return r.Value + CID(index)
 		}
 	}
 
-	for _, r := range f.CIDRanges {
-		index, ok := rangeIndex(r.First, r.Last, code)
-		if !ok {
-			continue
-		}
-		return r.Value + CID(index)
-	}
-
-	if f.Parent != nil {
-		return f.Parent.LookupCID(code)
-	}
-
+	// The code is not mapped anywhere in the chain: the notdef entries of
+	// this file apply before those of its parents.
 	return f.LookupNotdefCID(code)
 }
 
